@@ -452,11 +452,11 @@ theorem letstar_sequential (ρ : Env) (x : String) (init : Obj) (xs : List Strin
 
 /-- evaluating `(lambda (p…) body…)` records the environment of the lambda form itself -/
 theorem lambda_captures_definition_env (n : Nat) (ρ : Env) (ps : List String) (bodyObj : Obj) (body : List Obj)
-    (σ : St) (hb : listOf bodyObj = some body) :
+    (σ : St) (hb : listOf bodyObj = some body) (hr : "&rest" ∉ ps) :
     evalN (n + 1) (.form ρ (.cons (.sym "lambda") (.cons (ofList (ps.map .sym)) bodyObj))) σ
       = (.val [.clo σ.clos.length],
          addClosure σ { params := ps, body := body, env := ρ, name := "" }) := by
-  simp [evalN, step, stepEval, listOf, hb, listOf_ofList, symNames_map, stepForm, formOf]
+  simp [evalN, step, stepEval, listOf, hb, listOf_ofList, symNames_map, stepForm, formOf, splitRest_plain ps hr]
 
 theorem closure_stored (σ : St) (c : Closure) : (addClosure σ c).clos[σ.clos.length]? = some c := by
   simp [addClosure]
@@ -464,10 +464,10 @@ theorem closure_stored (σ : St) (c : Closure) : (addClosure σ c).clos[σ.clos.
 /-- applying a closure evaluates its body in the closure's DEFINITION environment extended by one
 fresh frame binding the parameters — no caller environment occurs -/
 theorem apply_closure_in_definition_env {n : Nat} {cid : Nat} {c : Closure} {args : List Obj} {σ : St}
-    (hc : σ.clos[cid]? = some c) (hn : c.name = "") (hl : c.params.length = args.length) :
+    (hc : σ.clos[cid]? = some c) (hn : c.name = "") (hr : c.rest = none) (hl : c.params.length = args.length) :
     evalN (n + 1) (.apply (.clo cid) args) σ
       = evalN n (.seq (pushFrame c.env σ.frames.length) c.body) (addFrame σ (zipFrame c.params args)) := by
-  simp [evalN, step, stepApply, callClosure, hc, hn, hl]
+  simp [evalN, step, stepApply, callClosure, hc, hn, hr, bindArgs, hl]
 
 /-- the result of `(funcall f a…)` depends on the environment of the call site only through the
 evaluation of the argument forms: the application itself is independent of the caller's
@@ -565,5 +565,240 @@ example : (evalN 14 (.form {} (form "let" [ofList [ofList [.sym "c", .int 0]],
         form "funcall" [.sym "inc", .int 2], form "funcall" [.sym "inc", .int 3], form "funcall" [.sym "get", .int 0]]])) {}).1
     = .val [.int 5] := by
   decide +kernel
+
+-- ---------------------------------------------------------------------------------------------
+-- extension round: iteration forms, mapcar / apply / funcall, multiple values, defun, &rest
+
+section iteration
+variable {n : Nat} {ρ : Env} {σ σ1 σ2 : St}
+
+/-- the iterations of a `dolist` body that all end normally, threaded through the store: the loop variable is
+assigned (in the loop's own frame `fid`) before each run of the body -/
+inductive DolistChain (ρ : Env) (fid : Nat) (var : String) (body : List Obj) (tbid : Nat) : List Obj → St → St → Prop
+  | nil (σ : St) : DolistChain ρ fid var body tbid [] σ σ
+  | cons {v : Obj} {items : List Obj} {σ σ1 σ2 : St} {w : List Obj} :
+      Evals (.tagbodyRun ρ tbid body body) (setInFrame σ fid var v) (.val w, σ1) →
+      DolistChain ρ fid var body tbid items σ1 σ2 → DolistChain ρ fid var body tbid (v :: items) σ σ2
+
+/-- `dolist` runs its body once per element, in list order, and then evaluates the result forms with the variable
+bound to nil -/
+theorem dolist_each_element_once_in_order {fid tbid : Nat} {var : String} {items body result : List Obj} {r : Res}
+    (hc : DolistChain ρ fid var body tbid items σ σ1)
+    (hr : Evals (.seq ρ result) (setInFrame σ1 fid var .nil) r) :
+    Evals (.dolistLoop ρ fid var items body tbid result) σ r := by
+  induction hc with
+  | nil σ =>
+    obtain ⟨m, hm, hne⟩ := hr
+    exact ⟨m + 1, by simpa [evalN, step, stepDolist] using hm, hne⟩
+  | @cons v items σa σb σc w h1 _ ih =>
+    obtain ⟨m1, hm1, _⟩ := h1
+    obtain ⟨m2, hm2, hne⟩ := ih hr
+    refine ⟨max m1 m2 + 1, ?_, hne⟩
+    have a1 := evalN_ge hm1 (by simp) (Nat.le_max_left m1 m2)
+    have a2 := evalN_ge hm2 hne (Nat.le_max_right m1 m2)
+    simp [evalN, step, stepDolist, a1, bindV, a2]
+
+/-- an element whose body run does not end normally ends the loop: later elements are not visited -/
+theorem dolist_exit_ends_loop {fid tbid : Nat} {var : String} {v : Obj} {items body result : List Obj} {o : Out}
+    (h : evalN n (.tagbodyRun ρ tbid body body) (setInFrame σ fid var v) = (o, σ1)) (ho : NotVal o) :
+    evalN (n + 1) (.dolistLoop ρ fid var (v :: items) body tbid result) σ = (o, σ1) := by
+  simp [evalN, step, stepDolist, h, bindV_exit _ ho]
+
+/-- `dotimes`: while the counter is below the count the body runs with the variable bound to the counter, then
+the counter is incremented -/
+theorem dotimes_iteration {fid tbid i count : Nat} {var : String} {body result : List Obj} {w : List Obj}
+    (hi : i < count)
+    (h : evalN n (.tagbodyRun ρ tbid body body) (setInFrame σ fid var (.int i)) = (.val w, σ1)) :
+    evalN (n + 1) (.dotimesLoop ρ fid var i count body tbid result) σ
+      = evalN n (.dotimesLoop ρ fid var (i + 1) count body tbid result) σ1 := by
+  simp [evalN, step, stepDotimes, hi, h, bindV]
+
+/-- `dotimes` ends when the counter reaches the count: the result forms see the variable bound to the count and
+the body is not evaluated again -/
+theorem dotimes_end {fid tbid i count : Nat} {var : String} {body result : List Obj} (hi : ¬ i < count) :
+    evalN (n + 1) (.dotimesLoop ρ fid var i count body tbid result) σ
+      = evalN n (.seq ρ result) (setInFrame σ fid var (.int count)) := by
+  simp [evalN, step, stepDotimes, hi]
+
+/-- `do` / `do*`: a true end test selects the result forms; neither the body nor a step form is evaluated -/
+theorem do_ends_when_test_true {spec : DoSpec} {v : List Obj}
+    (ht : evalN n (.form ρ spec.test) σ = (.val v, σ1)) (htrue : truthy (prim v) = true) (hres : spec.results ≠ []) :
+    evalN (n + 1) (.doLoop ρ spec) σ = evalN n (.seq ρ spec.results) σ1 := by
+  have : spec.results.isEmpty = false := by cases h : spec.results <;> simp_all
+  simp [evalN, step, stepDoLoop, ht, bindV, htrue, this]
+
+/-- `do` (parallel stepping): after the body ALL step forms are evaluated, left to right, in the old bindings and
+only then assigned -/
+theorem do_steps_in_parallel {spec : DoSpec} {v w vs : List Obj} {σ3 : St}
+    (hseq : spec.sequential = false)
+    (ht : evalN n (.form ρ spec.test) σ = (.val v, σ1)) (hfalse : truthy (prim v) = false)
+    (hb : evalN n (.tagbodyRun ρ spec.tbid spec.body spec.body) σ1 = (.val w, σ2))
+    (hs : evalN n (.args ρ (stepForms spec.vars)) σ2 = (.val vs, σ3)) :
+    evalN (n + 1) (.doLoop ρ spec) σ
+      = evalN n (.doLoop ρ spec) (assignAll σ3 ρ (stepNames spec.vars) vs) := by
+  simp [evalN, step, stepDoLoop, ht, bindV, hfalse, hb, hseq, hs]
+
+/-- `do*` (sequential stepping): each step form is evaluated and assigned before the next one is evaluated -/
+theorem dostar_steps_in_sequence {x : String} {e : Obj} {vars : List (String × Option Obj)} {v : List Obj}
+    (h : evalN n (.form ρ e) σ = (.val v, σ1)) :
+    evalN (n + 1) (.doSteps ρ ((x, some e) :: vars)) σ = evalN n (.doSteps ρ vars) (setVar σ1 ρ x (prim v)) := by
+  simp [evalN, step, stepDoSteps, h, bindV]
+
+/-- a `do*` variable without step form keeps its value -/
+theorem dostar_no_step_keeps_value {x : String} {vars : List (String × Option Obj)} :
+    evalN (n + 1) (.doSteps ρ ((x, none) :: vars)) σ = evalN n (.doSteps ρ vars) σ := by
+  simp [evalN, step, stepDoSteps]
+
+end iteration
+
+section mapping
+variable {n : Nat} {ρ : Env} {σ σ1 σ2 : St}
+
+/-- the applications `mapcar` makes over one list, in list order, each to a one-element argument list of its own;
+the primary values are collected -/
+inductive MapChain (f : Obj) : List Obj → St → List Obj → St → Prop
+  | nil (σ : St) : MapChain f [] σ [] σ
+  | cons {a : Obj} {l : List Obj} {σ σ1 σ2 : St} {v vs : List Obj} :
+      Evals (.apply f [a]) σ (.val v, σ1) → MapChain f l σ1 vs σ2 → MapChain f (a :: l) σ (prim v :: vs) σ2
+
+/-- `mapcar` applies the function to the elements one after the other, from the first to the last, exactly once
+each, and returns the list of the primary values in the same order -/
+theorem mapcar_each_element_once_in_order {f : Obj} {l acc vs : List Obj} (hc : MapChain f l σ vs σ1) :
+    Evals (.mapcarLoop f l none acc) σ (.val [ofList (acc.reverse ++ vs)], σ1) := by
+  induction hc generalizing acc with
+  | nil σ => exact ⟨1, by simp [evalN, step, stepMapcar], by simp⟩
+  | @cons a l σa σb σc v vs h1 _ ih =>
+    obtain ⟨m1, hm1, _⟩ := h1
+    obtain ⟨m2, hm2, _⟩ := ih (acc := prim v :: acc)
+    refine ⟨max m1 m2 + 1, ?_, by simp⟩
+    have a1 := evalN_ge hm1 (by simp) (Nat.le_max_left m1 m2)
+    have a2 := evalN_ge hm2 (by simp) (Nat.le_max_right m1 m2)
+    simp [evalN, step, stepMapcar, a1, bindV, a2]
+
+/-- `mapcar` over two lists applies the function to a NEW two-element argument list per step (so an `&rest` list
+made from it belongs to that call alone) and stops with the shorter list -/
+theorem mapcar_two_lists_step {f a b : Obj} {l1 l2 acc v : List Obj}
+    (h : evalN n (.apply f [a, b]) σ = (.val v, σ1)) :
+    evalN (n + 1) (.mapcarLoop f (a :: l1) (some (b :: l2)) acc) σ
+      = evalN n (.mapcarLoop f l1 (some l2) (prim v :: acc)) σ1 := by
+  simp [evalN, step, stepMapcar, h, bindV]
+
+theorem mapcar_stops_with_shorter_list {f a : Obj} {l1 acc : List Obj} :
+    evalN (n + 1) (.mapcarLoop f (a :: l1) (some []) acc) σ = (.val [ofList acc.reverse], σ) := by
+  simp [evalN, step, stepMapcar]
+
+/-- `funcall`: the function form and the argument forms are evaluated as ONE left-to-right argument list, then the
+first value is applied to the others -/
+theorem funcall_args_then_apply {f restObj : Obj} {as : List Obj} {fv : Obj} {avs : List Obj}
+    (ha : listOf restObj = some as)
+    (h : evalN n (.args ρ (f :: as)) σ = (.val (fv :: avs), σ1)) :
+    evalN (n + 1) (.form ρ (.cons (.sym "funcall") (.cons f restObj))) σ = evalN n (.apply fv avs) σ1 := by
+  simp [evalN, step, stepEval, listOf, ha, stepForm, formOf, h, bindV]
+
+/-- `apply`: all argument forms are evaluated left to right first; the last value is spread -/
+theorem apply_spreads_last_argument {f restObj : Obj} {as : List Obj} {fv l : Obj} {front spread : List Obj}
+    (ha : listOf restObj = some as)
+    (h : evalN n (.args ρ (f :: as)) σ = (.val (fv :: (front ++ [l])), σ1)) (hl : listOf l = some spread) :
+    evalN (n + 1) (.form ρ (.cons (.sym "apply") (.cons f restObj))) σ = evalN n (.apply fv (front ++ spread)) σ1 := by
+  simp [evalN, step, stepEval, listOf, ha, stepForm, formOf, h, bindV, hl]
+
+end mapping
+
+section values
+variable {n : Nat} {ρ : Env} {σ σ1 σ2 : St}
+
+/-- `(values e…)`: the primary value of every argument, evaluated once, left to right (it IS the argument list) -/
+theorem values_is_argument_list {argsObj : Obj} {es : List Obj} (ha : listOf argsObj = some es) :
+    evalN (n + 1) (.form ρ (.cons (.sym "values") argsObj)) σ = evalN n (.args ρ es) σ := by
+  simp [evalN, step, stepEval, ha, stepForm, formOf]
+
+/-- `multiple-value-bind`: the values form is evaluated in the OUTER environment; then one new frame binds the
+variables to the values (missing values are nil, surplus values are dropped) -/
+theorem mvbind_binds_all_values {varsObj vform bodyObj : Obj} {xs : List String} {body vs : List Obj}
+    (hx : listOf varsObj = some (xs.map .sym)) (hb : listOf bodyObj = some body)
+    (h : evalN n (.form ρ vform) σ = (.val vs, σ1)) :
+    evalN (n + 1) (.form ρ (.cons (.sym "multiple-value-bind") (.cons varsObj (.cons vform bodyObj)))) σ
+      = evalN n (.seq (pushFrame ρ σ1.frames.length) body) (addFrame σ1 (zipFrame xs vs)) := by
+  simp [evalN, step, stepEval, listOf, hb, stepForm, formOf, hx, symNames_map, h, bindV]
+
+example : zipFrame ["a", "b", "c"] [.int 1, .int 2] = [("a", .int 1), ("b", .int 2), ("c", .nil)] ∧
+    zipFrame ["a"] [.int 1, .int 2] = [("a", .int 1)] := by decide
+
+/-- `multiple-value-list` collects every value of its form -/
+theorem mvlist_collects_all_values {e : Obj} {vs : List Obj} (h : evalN n (.form ρ e) σ = (.val vs, σ1)) :
+    evalN (n + 1) (.form ρ (.cons (.sym "multiple-value-list") (.cons e .nil))) σ = (.val [ofList vs], σ1) := by
+  simp [evalN, step, stepEval, listOf, stepForm, formOf, h, bindV]
+
+/-- `setq` stores and returns the primary value only -/
+theorem setq_primary_value {x : String} {e : Obj} {v : List Obj} (h : evalN n (.form ρ e) σ = (.val v, σ1)) :
+    evalN (n + 2) (.setqPairs ρ [.sym x, e] .nil) σ = (.val [prim v], setVar σ1 ρ x (prim v)) := by
+  have h' := evalN_add h (by simp) 1
+  simp [evalN, step, stepSetq, bindV] at h' ⊢
+  simp [h', bindV, evalN, step, stepSetq]
+
+end values
+
+section functions
+variable {n : Nat} {σ : St}
+
+/-- `defun` stores the function in the GLOBAL, late-bound function table: the closure is found by name at call
+time — this is what makes recursion (and calling a function defined later) work -/
+theorem defun_registers_function {ρ : Env} {name : String} {ps : List String} {bodyObj : Obj} {body : List Obj}
+    (hb : listOf bodyObj = some body) (hr : "&rest" ∉ ps) :
+    evalN (n + 1) (.form ρ (.cons (.sym "defun") (.cons (.sym name) (.cons (ofList (ps.map .sym)) bodyObj)))) σ
+      = (.val [.sym name],
+         setFun (addClosure σ { params := ps, body := body, env := ρ, name := name }) name σ.clos.length) := by
+  simp [evalN, step, stepEval, listOf, hb, listOf_ofList, symNames_map, stepForm, formOf, splitRest_plain ps hr]
+
+theorem defun_then_lookup (σ : St) (c : Closure) (name : String) :
+    (setFun (addClosure σ c) name σ.clos.length).funs.lookup name = some σ.clos.length ∧
+    (setFun (addClosure σ c) name σ.clos.length).clos[σ.clos.length]? = some c := by
+  simp [setFun, addClosure, List.lookup]
+
+/-- calling a named user function (also recursively, from its own body): the function table of the CURRENT store
+is consulted, and the body runs in the definition environment, inside a block named like the function, with a
+frame of its own for this activation -/
+theorem call_user_function {name : String} {cid : Nat} {c : Closure} {args : List Obj}
+    (hf : σ.funs.lookup name = some cid) (hc : σ.clos[cid]? = some c) (hn : (c.name == "") = false)
+    (hr : c.rest = none) (hl : c.params.length = args.length) :
+    evalN (n + 1) (.apply (.fn name) args) σ
+      = catchRet σ.nextId
+          (evalN n (.seq (withBlock (pushFrame c.env σ.frames.length) c.name σ.nextId) c.body)
+            (bumpId (addFrame σ (zipFrame c.params args)))) := by
+  simp [evalN, step, stepApply, callNamed, hf, callClosure, hc, hr, bindArgs, hl, hn]
+
+/-- every activation gets a NEW frame (its id is the number of frames allocated so far): the bindings of an outer
+activation of the same function are untouched by an inner one -/
+theorem activation_frame_is_fresh (σ : St) (fr : List (String × Obj)) (k : Nat) (hk : k < σ.frames.length) :
+    (addFrame σ fr).frames[k]? = σ.frames[k]? ∧ (addFrame σ fr).frames[σ.frames.length]? = some fr := by
+  simp [addFrame, List.getElem?_append_left hk]
+
+/-- `&rest r`: the required parameters are bound positionally and `r` to a list built for this call from exactly the
+surplus arguments -/
+theorem rest_binds_surplus_arguments {cid : Nat} {c : Closure} {args : List Obj} {r : String}
+    (hc : σ.clos[cid]? = some c) (hn : c.name = "") (hr : c.rest = some r) (hl : c.params.length ≤ args.length) :
+    evalN (n + 1) (.apply (.clo cid) args) σ
+      = evalN n (.seq (pushFrame c.env σ.frames.length) c.body)
+          (addFrame σ (zipFrame c.params (args.take c.params.length) ++ [(r, ofList (args.drop c.params.length))])) := by
+  simp [evalN, step, stepApply, callClosure, hc, hn, hr, bindArgs, Nat.not_lt.mpr hl]
+
+/-- a lambda list `(p… &rest r)` is read as the required parameters `p…` and the rest variable `r` -/
+theorem lambda_list_with_rest (ps : List String) (r : String) (h : "&rest" ∉ ps) (hr : r ≠ "&rest") :
+    splitRest (ps ++ ["&rest", r]) = some (ps, some r) := by
+  induction ps with
+  | nil => simp [splitRest, hr]
+  | cons x xs ih =>
+    have hx : (x == "&rest") = false := by
+      simp only [beq_eq_false_iff_ne, ne_eq]; intro hx; exact h (by simp [hx])
+    have hxs : "&rest" ∉ xs := fun hm => h (List.mem_cons_of_mem _ hm)
+    simp [splitRest, hx, ih hxs]
+
+/-- `(mapcar (lambda (&rest r) r) '(1 2) '(10 20))`: every call has its own rest list -/
+example : (evalN 10 (.form {} (form "mapcar" [form "lambda" [ofList [.sym "&rest", .sym "r"], .sym "r"],
+      form "quote" [ofList [.int 1, .int 2]], form "quote" [ofList [.int 10, .int 20]]])) {}).1
+    = .val [ofList [ofList [.int 1, .int 10], ofList [.int 2, .int 20]]] := by
+  decide +kernel
+
+end functions
 
 end SlipVerif.Theorems.C01
